@@ -5,6 +5,7 @@ package main
 
 import (
 	"fmt"
+	"regexp"
 	"go/constant"
 	"go/token"
 	"go/types"
@@ -101,6 +102,7 @@ type Gen struct {
 	stableLoc  map[*ssa.Alloc]bool
 	curStore   *storeRec
 	curCode    string
+	preAlloc   string
 	storeRecs  map[*ssa.BasicBlock]map[string][]storeRec // precise single-location stores per block and heap
 	imprecise  map[*ssa.BasicBlock]map[string]bool
 }
@@ -159,9 +161,26 @@ func sanitize(s string) string {
 	return b.String()
 }
 
+var reByte = regexp.MustCompile(`\bbyte\b`)
+var reRune = regexp.MustCompile(`\brune\b`)
+
+// typeKey names the heap of a type; the aliases byte/rune are normalised to uint8/int32 so that
+// []byte and []uint8 share one element heap.
 func typeKey(t types.Type) string {
 	s := types.TypeString(t, func(p *types.Package) string { return p.Name() })
+	s = reByte.ReplaceAllString(s, "uint8")
+	s = reRune.ReplaceAllString(s, "int32")
 	return sanitize(s)
+}
+
+var reHeapByte = regexp.MustCompile(`(^|[_LJ])byte($|[_J])`)
+
+// normHeapName maps heap names written with the old alias spelling (E_byte, C_LJbyte) to the normalised ones.
+func normHeapName(n string) string {
+	for reHeapByte.MatchString(n) {
+		n = reHeapByte.ReplaceAllString(n, "${1}uint8${2}")
+	}
+	return n
 }
 
 func isModulePkg(p *types.Package) bool {
@@ -448,7 +467,7 @@ func (g *Gen) subref(structT types.Type, idx int, base string) string {
 		inv := "subinv" + strings.TrimPrefix(fn, "sub")
 		g.decl[inv] = "fun:(Int) Int"
 		g.dord = append(g.dord, inv)
-		g.defs = append(g.defs, fmt.Sprintf("(assert (forall ((r Int)) (! (and (= (%s (%s r)) r) (= (subtag (%s r)) %d)) :pattern ((%s r)))))", inv, fn, fn, g.P.typeID2("subref:"+fn), fn))
+		g.defs = append(g.defs, fmt.Sprintf("(assert (forall ((r Int)) (! (and (= (%s (%s r)) r) (= (subtag (%s r)) %d) (= (rootof (%s r)) (rootof r))) :pattern ((%s r)))))", inv, fn, fn, g.P.typeID2("subref:"+fn), fn, fn))
 	}
 	return fmt.Sprintf("(%s %s)", fn, base)
 }
@@ -495,7 +514,14 @@ func (g *Gen) loadValueIn(st State, a Addr, t types.Type, depth int) string {
 func (g *Gen) storeValue(a Addr, t types.Type, val string, depth int) {
 	if stt, ok := structOf(t); ok {
 		if !g.structTransparent(t) || depth > 3 {
-			// opaque struct: havoc all field heaps of the type at this base — we have none modelled
+			// opaque (foreign) struct value: one token per object, 0 = the zero value
+			h := "O_" + typeKey(t)
+			tok := "0"
+			if val != g.zero(t) {
+				tok = g.newConst("otok", "Int")
+				g.assume(fmt.Sprintf("(not (= %s 0))", tok))
+			}
+			g.store(Addr{Heap: h, Base: a.Base, Sort: "Int"}, tok)
 			return
 		}
 		srt := g.structSort(t)
